@@ -5,12 +5,14 @@ CONSTANTS
   MaxDebounce = 1
   MaxEvents = 0
   MaxProbeFail = 1
+  MaxCtlFail = 0
   MaxAddHost = 0
   OnlyDebouncer = FALSE
   WithControl = TRUE
   Defect_StopHandshake = FALSE
   Defect_HeartbeatStart = FALSE
   Defect_LatePool = FALSE
+  Defect_ReconnectInline = FALSE
   Mut = "none"
 INVARIANTS TypeOK NoPanic AllClosedAfterClose QueryAfterClose CancelAfterPools
 PROPERTIES CloseReturns StopReturns NobodyStuck GoroutinesExit
